@@ -121,19 +121,28 @@ func (f *FProtocol) ReadStructBegin(ctx context.Context) (string, error) {
 	return f.TProtocol.ReadStructBegin(ctx)
 }
 
+// bufferedProtocolReadAhead is the size of the bufio.Reader the JSON protocols
+// of Apache Thrift read through.
+const bufferedProtocolReadAhead = 4096
+
 // checkContainerSize refuses a list, set or map that announces more elements
 // than bytes remain to be read. Generated Read methods allocate room for the
-// announced size before reading the first element. The binary and compact
-// protocols read straight from their transport and every element occupies at
+// announced size before reading the first element. Every element occupies at
 // least one byte, so such a container cannot be complete.
 func (f *FProtocol) checkContainerSize(size int) error {
+	remaining := f.Transport().RemainingBytes()
+	if remaining == ^uint64(0) {
+		return nil
+	}
 	switch f.TProtocol.(type) {
 	case *thrift.TBinaryProtocol, *thrift.TCompactProtocol:
 	default:
-		return nil
+		// Other protocols (JSON) read through a bufio.Reader of their own: what
+		// they have not parsed yet is at most its buffer plus what the
+		// transport still holds.
+		remaining += bufferedProtocolReadAhead
 	}
-	remaining := f.Transport().RemainingBytes()
-	if remaining == ^uint64(0) || uint64(size) <= remaining {
+	if uint64(size) <= remaining {
 		return nil
 	}
 	return thrift.NewTProtocolExceptionWithType(thrift.SIZE_LIMIT,
